@@ -146,10 +146,11 @@ def native_case(contract_module, cls_name, shape_idx, model=None, seed=None):
         if can is not None:
             can(sh, a, ret)
         out["checks"] = list(rec.checks)
-        try:
-            out["ret"] = norm(ret)
-        except Exception:
-            out["ret"] = "<unnormalisable>"
+        if getattr(C, "compare_ret", True):
+            try:
+                out["ret"] = norm(ret)
+            except Exception:
+                out["ret"] = "<unnormalisable>"
     except api.SkipCase:
         out["skipped"] = True
     except Exception as e:
@@ -187,6 +188,11 @@ def run_concrete(contract_module, cls_name, shape_idx, concrete):
         I, mod = setup_interp(ctx, contract_module)
         C = mod.globals[cls_name]
         sh = I.getattr(C, "shapes")[shape_idx]
+        from .harness import install_modular
+
+        install_modular(I, C, I.getattr(C, "target", None))
+        I.permissive_opaque = bool(I.getattr(C, "permissive", False))
+        I.outer_call_pending = True
         ctx.begin_path()
         a = list(I.iterate(I.call(I.getattr(C, "args"), [sh, SymFactory(I, concrete)], {})))
         req = I.getattr(C, "requires", None)
@@ -213,7 +219,8 @@ def run_concrete(contract_module, cls_name, shape_idx, concrete):
         for ob in ctx.pending:
             c = z3.simplify(ob.clause)
             out["checks"].append((ob.name, bool(z3.is_true(c))))
-        out["ret"] = norm_interp(ret)
+        if I.getattr(C, "compare_ret", True):
+            out["ret"] = norm_interp(ret)
     except PathAbort:
         out["skipped"] = True
     except Unsupported as e:
